@@ -153,3 +153,27 @@ example (P : Prims) (fs : FS) (env : Env) :
 example : rangeArgs [105] 1 5 ++ modsText true (some 1) (some 3) =
     [105, 32, 105, 110, 32, 40, 49, 46, 46, 53, 41, 32, 114, 101, 118, 101, 114, 115, 101, 100, 32,
      111, 102, 102, 115, 101, 116, 58, 32, 49, 32, 108, 105, 109, 105, 116, 58, 32, 51] := by decide
+
+/-! ## The side condition `i ≠ forloop` is needed
+
+`{% for forloop in (1..1) %}{{ forloop }}{% endfor %}`: the loop binds its variable and THEN `forloop` (the record with
+`index`, `length`, …), so the body prints the record, not the numeral. With an output layer that prints integers
+as their decimal text and nothing else, the output is empty instead of `1` (the standard layer prints the Go map). -/
+def intOut : OutPrims := { chunks := fun v => match v with | .int _ n => .ok [intDec n] | _ => .ok [] }
+
+example : ∀ n, intOut.chunks (.int .int n) = .ok [intDec n] := fun _ => rfl
+
+/-- **C11 (counterexample without `i ≠ forloop`).** -/
+theorem for_var_named_forloop (P : Prims) (fs : FS) (env : Env) :
+    run P intOut {} fs 1 (spell Delims.default (forPrintSrc (rangeArgs nmForloop 1 1) nmForloop Ws.std Ws.std Ws.std)) 1 env = .ok [] := by
+  rw [show Delims.default = Delims.ofList ({} : Cfg).delims from rfl, run_spell P intOut {} fs 1 _ 1 env (by decide) (by decide)]
+  show runRoot P intOut {} fs 1
+    [.loop 1 false nmForloop (.range (.lit (.int .int 1)) (.lit (.int .int 1))) {} [.obj 1 (.var nmForloop)] []] env = _
+  simp [runRoot, frender, renderRoot, renderList, renderNode, renderBlockBody, loopRun, loopDispatch, loopIterate, iterateM, tablerowCols,
+    intModifier, restoreLoopVars, selectItems, loopItems, rangeItems, wrapAt, wrapFailAt, M.mapFail, M.bind, M.pure, M.getEnv, M.ofRes,
+    M.setVar, M.getVar, writeAllM, flushM, Prog.bind, Prog.mapFail, Prog.runPure, bind, pure, mkCtx, evaluate, eval, GoVal.intOf,
+    Env.get_set_same, GoVal.unwrap, GoVal.isNil, GoVal.toLiquid, intOut, forloopRec, Status.wrap, statusToProg, Res.bind, List.range,
+    List.range.loop]
+
+/-- the bound `b - a ≤ 100000` is a boundary of the model, not of the code: beyond it the model gives no answer -/
+example : loopItems (.range 0 100001) = .unmodelled "huge range" := by rfl
